@@ -169,8 +169,8 @@ CHECKS = {
         "technique": "property-based testing (rapid) of generated actor scripts in testing/synctest bubbles; history-invariant oracle",
         "rule": ("plans: buffer in {0,1,2,5}, 1-3 senders, 1-24 steps (incl. tryburst: all senders TrySend at once) + drain epilogue; non-trivial = Close called while accepted values were still buffered (buffer >= 1), or Sends of two sender actors overlapped, or a Send was blocked when the receiver closed; distinct = distinct plan JSON; R=5/20 executions each"),
         "assumptions": ["testing/synctest durable-block detection", "logical stamps taken by the actors bracket the library calls", "rapid v1.3.0; go1.26.8"],
-        "jobs": [{"pkg": "c10pipe", "kinds": ["pipe"], "scale_thorough": 8, "shards_thorough": 16, "replay_reps": 200},
-                 {"pkg": "c10pipe", "race": True, "kinds": ["pipe"], "scale_quick": 0.15, "scale_thorough": 2, "shards_thorough": 4, "replay_reps": 20}],
+        "jobs": [{"pkg": "c10pipe", "kinds": ["pipe", "pipe-storm"], "scale_thorough": 8, "shards_thorough": 16, "replay_reps": 200},
+                 {"pkg": "c10pipe", "race": True, "kinds": ["pipe", "pipe-storm"], "scale_quick": 0.15, "scale_thorough": 2, "shards_thorough": 4, "replay_reps": 20}],
     },
     "C12": {
         "level": "exploration",
